@@ -55,7 +55,7 @@ func (w *World) selectItems(prop, fn string) []*Item {
 		if it.Trusted {
 			continue
 		}
-		if prop != "" && it.Property != prop {
+		if prop != "" && !hasProp(it.Property, prop) {
 			continue
 		}
 		if fn != "" && !strings.Contains(it.Name, fn) {
@@ -173,3 +173,12 @@ func cmdVerify(args []string) {
 	}
 }
 
+
+func hasProp(tags, prop string) bool {
+	for _, t := range strings.Split(tags, ",") {
+		if strings.TrimSpace(t) == prop {
+			return true
+		}
+	}
+	return false
+}
